@@ -30,7 +30,7 @@ pub static DEF: PropDef = PropDef {
         "panics are injected into C-API calls only while the model says the catcher is installed and enabled on that task (otherwise unwinding into extern \"C\" aborts by language rule)",
         "a failing call must replace the calling thread's last-error message; a succeeding call leaves it unchanged",
     ],
-    required_probes: &["c20.parse_ok", "c20.parse_err", "c20.nul_in_error", "c20.non_utf8", "c20.match_ok", "c20.status_panic", "c20.setter_fail", "c20.deser_fail", "c20.cross_task_error", "c20.hash", "c20.parse_panic", "c20.compile_panic", "c20.match_foreign"],
+    required_probes: &["c20.parse_ok", "c20.parse_err", "c20.nul_in_error", "c20.non_utf8", "c20.match_ok", "c20.status_panic", "c20.setter_fail", "c20.deser_fail", "c20.cross_task_error", "c20.hash", "c20.parse_panic", "c20.compile_panic", "c20.match_foreign", "c20.fail_burst"],
     extra: None,
 };
 
@@ -80,6 +80,8 @@ enum Call {
     CompileBoom,
     /// match a filter compiled for a structurally identical but distinct scheme: an error, never an evaluation
     MatchForeign,
+    /// n failing parse calls in a row, each with its own message: the last one is what get_last_error shows
+    FailBurst(usize),
     ClearLastError,
     EnableCatcher,
     DisableCatcher,
@@ -586,6 +588,23 @@ fn do_call(st: &mut TaskState, sh: &Shared, call: &Call) {
             }
             verify_last_error(st, fname);
         }
+        Call::FailBurst(n) => {
+            let fname = "wirefilter_parse_filter";
+            for i in 0..*n {
+                let text = format!("nope{i} == {}", "1".repeat(1 + i % 40));
+                let r = ffi::wirefilter_parse_filter(scheme, text.as_ptr().cast(), text.len());
+                if r.status != Status::Error || r.ast.is_some() {
+                    mismatch(st, fname, "status", format!("`{text}` gave {:?}", r.status));
+                    return;
+                }
+                if i + 1 == *n {
+                    let want = scheme.parse(&text).expect_err("must fail").to_string();
+                    failing(st, fname, ExpErr::Exact(subst(&want)));
+                }
+            }
+            kernel::count("c20.fail_burst");
+            verify_last_error(st, fname);
+        }
         Call::MatchForeign => {
             let fname = "wirefilter_match";
             let r = ffi::wirefilter_match(&sh.foreign_filter, &st.ctx);
@@ -810,7 +829,7 @@ fn gen_text_core(spec: &SchemeSpec, pool: &[MValue]) -> Vec<u8> {
 fn gen_calls(spec: &SchemeSpec, pool: &[MValue], n: usize, docs: &[Doc]) -> Vec<Call> {
     let mut out = Vec::new();
     for _ in 0..n {
-        let c = match choose_w(&[8, 2, 2, 2, 2, 4, 6, 3, 2, 3, 5, 3, 2, 2, 2, 2, 2, 1, 1, 2, 1, 1], "call.kind") {
+        let c = match choose_w(&[16, 4, 4, 4, 4, 8, 12, 6, 4, 6, 10, 6, 4, 4, 4, 4, 4, 2, 2, 4, 2, 2, 1], "call.kind") {
             0 => Call::Parse(gen_text(spec, pool)),
             1 => Call::SerializeAst,
             2 => Call::Hash,
@@ -863,7 +882,8 @@ fn gen_calls(spec: &SchemeSpec, pool: &[MValue], n: usize, docs: &[Doc]) -> Vec<
             18 => Call::SchemeJson,
             19 => Call::ParseBoom(1 + choose(2, "pboom.nth") as u32),
             20 => Call::CompileBoom,
-            _ => Call::MatchForeign,
+            21 => Call::MatchForeign,
+            _ => Call::FailBurst([2usize, 33, 130, 300][choose(4, "burst.n")]),
         };
         out.push(c);
     }
